@@ -36,8 +36,14 @@ def assign_attr_from_defs(obj: AvpGenerator, avp_list: list[Avp]):
                 current_value = getattr(obj, attr_name)
 
             if needed[avp_key].type_class is not None:
-                attr_value = needed[avp_key].type_class()
-                assign_attr_from_defs(attr_value, avp.value)
+                attr_value = None
+                try:
+                    grouped_avps = avp.value
+                except AvpDecodeError as e:
+                    logger.warning(str(e))
+                else:
+                    attr_value = needed[avp_key].type_class()
+                    assign_attr_from_defs(attr_value, grouped_avps)
                 if has_attr and isinstance(current_value, list):
                     current_value.append(attr_value)
                 else:
